@@ -330,3 +330,15 @@ def appended_at_most_close(acc, old_acc, not_this):
         return True
     return len(acc) == len(old_acc) + 1 and acc[0:len(old_acc)] == old_acc and \
         acc[len(old_acc)].packet_type == 1 and acc[len(old_acc)] is not not_this
+
+
+def is_handler_task(name):
+    return name == 'run_handler' or name == 'run_async_handler' or name == 'run_sync_handler'
+
+
+def one_task_spawned(spawned, old_spawned):
+    return len(spawned) == len(old_spawned) + 1 and spawned[0:len(old_spawned)] == old_spawned
+
+
+def task_name(t):
+    return t[0]
